@@ -18,7 +18,7 @@ class _Cap(logging.Handler):
 
 
 logging.getLogger("custom_components.pyscript").addHandler(_Cap())
-logging.getLogger("custom_components.pyscript").setLevel(logging.DEBUG)
+logging.getLogger("custom_components.pyscript").setLevel(logging.INFO)
 
 
 def stub_hass(loop):
@@ -706,9 +706,9 @@ _mk_tracer_methods()
 def _snapshot_vars(d):
     out = {}
     for k, v in d.items():
-        if k in ("t", "__builtins__") or k.startswith("__"):
+        if k in ("t", "fn", "__builtins__") or k.startswith("__"):
             continue
-        out[k] = (type(v).__name__, getattr(v, "_id", None) if isinstance(v, Tracer) else repr(v))
+        out[k] = (type(v).__name__, _tid(v))
     return out
 
 
@@ -723,8 +723,19 @@ async def _run_both(source, mode, script, presets):
         Tracer.LOG = []
         Tracer.SCRIPT = script
         t = lambda i: (Tracer.LOG.append(("Ev", i)), _maybe_fail(), Tracer(i))[2]
-        g = {"t": t}
-        g.update({k: Tracer(f"var:{k}") for k in presets})
+
+        def fn(i):
+            # a plain (non-tracer) callee: a function that logs its call
+            Tracer.LOG.append(("Ev", i))
+            _maybe_fail()
+
+            def callee(*a, **k):
+                Tracer.LOG.append(("call", i) + tuple(_tid(x) for x in a) + tuple(f"{kk}={_tid(v)}" for kk, v in k.items()))
+                _maybe_fail()
+                return Tracer(f"call({i})")
+            return callee
+        g = {"t": t, "fn": fn}
+        g.update({k: (None if script.get("preset_none") else Tracer(f"var:{k}")) for k in presets})
         res, err = None, None
         try:
             if which == "cpython":
@@ -741,8 +752,12 @@ async def _run_both(source, mode, script, presets):
                 g = gctx.global_sym_table
         except BaseException as e:  # noqa
             err = type(e).__name__
-        recs.append({"log": [list(map(str, e)) for e in Tracer.LOG], "result": (type(res).__name__, getattr(res, "_id", None) if isinstance(res, Tracer) else repr(res)) if mode == "eval" and err is None else None,
-                     "exception": err, "vars": _snapshot_vars(g)})
+        Tracer.SCRIPT = dict(script, fail_at=None)  # observing the outcome must not trigger scripted failures
+        n_events = len(Tracer.LOG)
+        rec = {"result": (type(res).__name__, _tid(res)) if mode == "eval" and err is None else None,
+               "exception": err, "vars": _snapshot_vars(g)}
+        rec["log"] = [list(map(str, e)) for e in Tracer.LOG[:n_events]]
+        recs.append(rec)
     return recs
 
 
@@ -766,8 +781,10 @@ async def c01_template(w):
         for cont in (True, False):
             tmap2 = dict(tmap, contains=cont)
             for fail_at in [None] + list(range(0, 10)):
-                for iter_len in (2, 0, 3):
-                    script = {"truth": tmap2, "fail_at": fail_at, "iter_len": iter_len}
+                for iter_len, preset_none in ((2, False), (0, False), (3, False), (2, True)):
+                    if preset_none and not presets:
+                        continue
+                    script = {"truth": tmap2, "fail_at": fail_at, "iter_len": iter_len, "preset_none": preset_none}
                     tried += 1
                     c, p = await _run_both(source, mode, script, presets)
                     if c != p:
